@@ -384,9 +384,14 @@ func (obj *Real32) MarshalJSON() ([]byte, error) {
 func (obj *Real32) UnmarshalJSON(data []byte) error {
   r := struct{Value float32; Derivative []float32; Hessian [][]float32}{}
   if err := json.Unmarshal(data, &r); err == nil {
+    for i := 0; i < len(r.Hessian); i++ {
+      if len(r.Hessian[i]) != len(r.Hessian) {
+        return fmt.Errorf("invalid json scalar representation")
+      }
+    }
     obj.Value = r.Value
     if len(r.Derivative) != 0 && len(r.Hessian) != 0 {
-      if len(r.Derivative) != len(r.Derivative) {
+      if len(r.Derivative) != len(r.Hessian) {
         return fmt.Errorf("invalid json scalar representation")
       }
       obj.Alloc(len(r.Derivative), 2)
